@@ -514,6 +514,27 @@ Section WithPathMatch.
     - apply (selectors_unmatched []). auto.
   Qed.
 
+  (* some emitted unmatchedSuppression finding is not matched by an exitcode suppression *)
+  Definition um_raise (nofail u : list supp) : bool :=
+    existsb (fun s => negb (existsb (hides pm true (unmatched_emsg s)) nofail)) u.
+
+  Lemma unmatched_fail_spec u : forall nofail b, unmatched_fail pm nofail u = Some b -> b = um_raise nofail u.
+  Proof.
+    induction u as [|s u IH]; intros nofail b H; cbn [unmatched_fail] in H.
+    - injection H as <-. reflexivity.
+    - destruct (list_is_suppressed pm nofail (unmatched_emsg s) true) as [[nf1 b1]|] eqn:H1; [|discriminate].
+      apply list_is_suppressed_eq in H1. destruct H1 as [-> ->].
+      destruct (unmatched_fail pm _ u) as [fr|] eqn:H2; [|discriminate].
+      injection H as <-. apply IH in H2. rewrite H2. unfold um_raise. cbn [existsb]. f_equal.
+      apply existsb_ext'. intros x. f_equal. apply existsb_hides_static.
+      rewrite map_upd_derive. apply map_static_derive.
+  Qed.
+
+  Lemma um_raise_static u nofail nofail' : map static nofail' = map static nofail -> um_raise nofail' u = um_raise nofail u.
+  Proof.
+    intros H. unfold um_raise. apply existsb_ext'. intros x. f_equal. apply existsb_hides_static. exact H.
+  Qed.
+
   (* ---------- the whole run, single executor ---------- *)
   Definition run_queries (nomsg nofail : list supp) (fs : list finput) (wp : list (emsg * str)) : list query :=
     single_queries nomsg nofail fs ++ nomsg_queries true nomsg nofail [] wp.
@@ -525,6 +546,21 @@ Section WithPathMatch.
   Lemma is_nil_list_map {A B} (f : A -> B) l : is_nil_list (map f l) = is_nil_list l.
   Proof. destruct l; reflexivity. Qed.
 
+  Lemma status_arith res (a b c : bool) ec : (res =? 0) = negb a ->
+    (if (if c && (N.lor res (if b then 1 else 0) =? 0) then ec else N.lor res (if b then 1 else 0)) =? 0
+     then 0 else ec) = if a || b || c then ec else 0.
+  Proof.
+    intros H. destruct a; cbn [negb orb] in *.
+    - assert (Hl : (N.lor res (if b then 1 else 0) =? 0) = false).
+      { apply N.eqb_neq. intros Hl. apply N.lor_eq_0_iff in Hl. destruct Hl as [Hl _].
+        apply N.eqb_neq in H. contradiction. }
+      rewrite Hl, andb_false_r, Hl. reflexivity.
+    - apply N.eqb_eq in H. rewrite H, N.lor_0_l. destruct b; cbn [orb N.eqb].
+      + rewrite andb_false_r. reflexivity.
+      + destruct c; cbn [andb]; [|reflexivity].
+        destruct (ec =? 0) eqn:Hc; [apply N.eqb_eq in Hc; congruence|reflexivity].
+  Qed.
+
   Theorem whole_run_single_spec cfg nomsg nofail fs wp o :
     whole_run pm None cfg nomsg nofail fs wp = Some o -> Forall (inline_present nomsg) fs ->
     let final := map (derive (run_queries nomsg nofail fs wp) (flat_map f_locs fs)) nomsg in
@@ -533,7 +569,7 @@ Section WithPathMatch.
                       ++ pick (spec_forward pm true nomsg [] wp) wp
     /\ (forall s, In s (o_unmatched o) <->
                   c_info cfg = true /\ nomsg <> [] /\ should_report (c_filters cfg) (c_inline cfg) final (map f_path fs) s)
-    /\ o_status o = if findings_raise nomsg nofail fs wp || negb (is_nil_list (o_unmatched o))
+    /\ o_status o = if findings_raise nomsg nofail fs wp || um_raise nofail (o_unmatched o)
                     then c_exitcode cfg else 0.
   Proof.
     unfold whole_run, exec_files. intros H Hin.
@@ -541,16 +577,19 @@ Section WithPathMatch.
     apply single_files_spec in Hs; [|exact Hin]. destruct Hs as (Hn & Hf & Hrep & Hres).
     assert (Hst : map static (sr_nomsg sr) = map static nomsg) by (rewrite Hn; apply map_static_derive).
     destruct (logger_run pm true (mkL (sr_nomsg sr) (sr_nofail sr) [] false) wp) as [[st outs]|] eqn:Hr; [|discriminate].
-    pose proof (logger_run_spec pm true _ _ _ _ Hr) as (Ho & He & _ & _). cbn [l_nomsg l_nofail l_seen l_exit] in *.
+    pose proof (logger_run_spec pm true _ _ _ _ Hr) as (Ho & He & _ & Hf2). cbn [l_nomsg l_nofail l_seen l_exit] in *.
     apply logger_run_nomsg in Hr. cbn [l_nomsg l_nofail l_seen] in Hr.
     rewrite (nomsg_queries_static true _ _ _ _ [] wp Hst Hf), Hn, map_derive_derive, app_nil_r in Hr.
     rewrite (spec_forward_static pm true _ _ [] wp Hst) in Ho.
     rewrite (spec_exit_static pm true _ _ _ _ [] wp Hst Hf) in He. cbn [orb] in He.
     fold (run_queries nomsg nofail fs wp) in Hr.
+    assert (Hnf : map static (l_nofail st) = map static nofail) by congruence.
     cbv zeta in H. rewrite Hr in H. rewrite is_nil_list_map in H.
     set (final := map (derive (run_queries nomsg nofail fs wp) (flat_map f_locs fs)) nomsg) in *.
     destruct (c_info cfg && negb (is_nil_list nomsg)) eqn:Hinfo.
     - destruct (report_unmatched pm (c_filters cfg) (c_inline cfg) final (map f_path fs)) as [u|] eqn:Hu; [|discriminate].
+      destruct (unmatched_fail pm (l_nofail st) u) as [fl|] eqn:Hfl; [|discriminate].
+      apply unmatched_fail_spec in Hfl. rewrite (um_raise_static u _ _ Hnf) in Hfl.
       injection H as <-. cbn [o_nomsg o_reported o_unmatched o_status].
       apply andb_prop in Hinfo. destruct Hinfo as [Hi Hne].
       split; [reflexivity|]. split; [|split].
@@ -559,33 +598,15 @@ Section WithPathMatch.
         * intros Hx. apply (report_unmatched_spec _ _ _ _ _ Hu s) in Hx. split; [exact Hi|]. split; [|exact Hx].
           intros ->. discriminate.
         * intros (_ & _ & Hx). apply (report_unmatched_spec _ _ _ _ _ Hu s). exact Hx.
-      + unfold findings_raise. rewrite He.
-        destruct (sr_result sr =? 0) eqn:Hz.
-        * apply N.eqb_eq in Hz. rewrite Hz, N.lor_0_l. symmetry in Hres. apply negb_true_iff in Hres. rewrite Hres.
-          cbn [orb]. destruct (spec_exit pm true nomsg nofail [] wp); cbn [orb N.eqb].
-          { destruct u; reflexivity. }
-          { destruct u; cbn [is_nil_list negb andb orb]; [reflexivity|].
-            destruct (c_exitcode cfg =? 0) eqn:Hc; [apply N.eqb_eq in Hc; congruence|reflexivity]. }
-        * symmetry in Hres. apply negb_false_iff in Hres. rewrite Hres. cbn [orb].
-          assert (Hl : (N.lor (sr_result sr) (if spec_exit pm true nomsg nofail [] wp then 1 else 0) =? 0) = false).
-          { apply N.eqb_neq. intros Hl. apply N.lor_eq_0_iff in Hl. destruct Hl as [Hl _].
-            apply N.eqb_neq in Hz. contradiction. }
-          rewrite Hl, andb_false_r. rewrite Hl. reflexivity.
-    - injection H as <-. cbn [o_nomsg o_reported o_unmatched o_status].
+      + unfold findings_raise. rewrite He, Hfl. apply status_arith. exact Hres.
+    - cbn [unmatched_fail] in H. injection H as <-. cbn [o_nomsg o_reported o_unmatched o_status].
       split; [reflexivity|]. split; [|split].
       + rewrite Hrep, Ho. reflexivity.
       + intros s. split.
         * intros [].
         * intros (Hi & Hne & _). rewrite Hi in Hinfo. destruct nomsg; [congruence|discriminate].
-      + unfold findings_raise. rewrite He. cbn [is_nil_list negb andb]. rewrite orb_false_r.
-        destruct (sr_result sr =? 0) eqn:Hz.
-        * apply N.eqb_eq in Hz. rewrite Hz, N.lor_0_l. symmetry in Hres. apply negb_true_iff in Hres. rewrite Hres.
-          cbn [orb]. destruct (spec_exit pm true nomsg nofail [] wp); reflexivity.
-        * symmetry in Hres. apply negb_false_iff in Hres. rewrite Hres. cbn [orb].
-          assert (Hl : (N.lor (sr_result sr) (if spec_exit pm true nomsg nofail [] wp then 1 else 0) =? 0) = false).
-          { apply N.eqb_neq. intros Hl. apply N.lor_eq_0_iff in Hl. destruct Hl as [Hl _].
-            apply N.eqb_neq in Hz. contradiction. }
-          rewrite Hl. reflexivity.
+      + unfold findings_raise. rewrite He. change (um_raise nofail []) with false.
+        rewrite <- (status_arith (sr_result sr) _ (spec_exit pm true nomsg nofail [] wp) false (c_exitcode cfg) Hres). reflexivity.
   Qed.
 
   (* every finding handed to the logger is put to the nomsg list *)
@@ -739,13 +760,20 @@ Section WithPathMatch.
     existsb p (flat_map g l) = existsb (fun x => existsb p (g x)) l.
   Proof. induction l as [|x l IH]; cbn; [reflexivity|]. rewrite existsb_app, IH. reflexivity. Qed.
 
+  (* everything the run shows: the findings handed to the output and the unmatchedSuppression findings *)
+  Definition um_finding (s : supp) : emsg * str := (unmatched_emsg s, []).
+  Definition all_shown (o : outcome) : list (emsg * str) := o_reported o ++ map um_finding (o_unmatched o).
+
+  Lemma um_raise_shown nofail u : um_raise nofail u = existsb (not_nofail nofail) (map um_finding u).
+  Proof. unfold um_raise. induction u as [|s u IH]; cbn [map existsb]; [reflexivity|]. rewrite IH. reflexivity. Qed.
+
   Theorem single_status_shown cfg nomsg nofail fs wp o :
     whole_run pm None cfg nomsg nofail fs wp = Some o -> Forall (inline_present nomsg) fs ->
-    o_status o = if existsb (not_nofail nofail) (o_reported o) || negb (is_nil_list (o_unmatched o))
-                 then c_exitcode cfg else 0.
+    o_status o = if existsb (not_nofail nofail) (all_shown o) then c_exitcode cfg else 0.
   Proof.
     intros H Hin. apply whole_run_single_spec in H; [|exact Hin]. cbv zeta in H.
-    destruct H as (_ & Hr & _ & Hs). rewrite Hs, Hr. unfold findings_raise.
+    destruct H as (_ & Hr & _ & Hs). rewrite Hs. unfold all_shown. rewrite (existsb_app _ (o_reported o)), <- um_raise_shown, Hr.
+    unfold findings_raise.
     rewrite existsb_app, existsb_flat_map, <- spec_exit_shown.
     rewrite (existsb_ext' (fun f => spec_exit pm true nomsg nofail [] (f_msgs f))
                           (fun x => existsb (not_nofail nofail) (pick (spec_forward pm true nomsg [] (f_msgs x)) (f_msgs x)))).
@@ -761,6 +789,7 @@ Section WithPathMatch.
     destruct (logger_run pm true _ wp) as [[st outs]|]; [|discriminate].
     cbv zeta in H.
     destruct (if c_info cfg && negb (is_nil_list (l_nomsg st)) then _ else _) as [u|]; [|discriminate].
+    destruct (unmatched_fail pm (l_nofail st) u) as [fl|]; [|discriminate].
     injection H as <-. cbn [o_status]. rewrite Hz. destruct (_ =? 0); reflexivity.
   Qed.
 
@@ -775,9 +804,10 @@ Section WithPathMatch.
     cbv zeta in H.
     destruct (c_info cfg && negb (is_nil_list (l_nomsg st))).
     - destruct (report_unmatched pm (c_filters cfg) (c_inline cfg) (l_nomsg st) (map f_path fs)) as [u|] eqn:Hu; [|discriminate].
+      destruct (unmatched_fail pm (l_nofail st) u) as [fl|]; [|discriminate].
       injection H as <-. cbn [o_unmatched o_nomsg] in *.
       apply (report_unmatched_spec _ _ _ _ _ Hu s) in Hs. apply reported_never_matched in Hs. exact Hs.
-    - injection H as <-. destruct Hs.
+    - cbn [unmatched_fail] in H. injection H as <-. destruct Hs.
   Qed.
 
   (* ---------- state transfer from workers: updates commute ---------- *)
@@ -942,38 +972,26 @@ Section WithPathMatch.
     - split; [apply covers_no_entry; exact Hnoum'|]. exact Hfil.
   Qed.
 
-  Lemma status_arith res (a b : bool) (u : list supp) ec : (res =? 0) = negb a ->
-    (if (if negb (is_nil_list u) && (N.lor res (if b then 1 else 0) =? 0) then ec else N.lor res (if b then 1 else 0)) =? 0
-     then 0 else ec) = if a || b || negb (is_nil_list u) then ec else 0.
-  Proof.
-    intros H. destruct a; cbn [negb orb] in *.
-    - assert (Hl : (N.lor res (if b then 1 else 0) =? 0) = false).
-      { apply N.eqb_neq. intros Hl. apply N.lor_eq_0_iff in Hl. destruct Hl as [Hl _].
-        apply N.eqb_neq in H. contradiction. }
-      rewrite Hl, andb_false_r, Hl. reflexivity.
-    - apply N.eqb_eq in H. rewrite H, N.lor_0_l. destruct b; cbn [orb N.eqb].
-      + destruct u; reflexivity.
-      + destruct u; cbn [is_nil_list negb andb]; [reflexivity|].
-        destruct (ec =? 0) eqn:Hc; [apply N.eqb_eq in Hc; congruence|reflexivity].
-  Qed.
-
   (* thread / process executors: the status *)
   Theorem whole_run_multi_status k cfg nomsg nofail fs wp o :
     whole_run pm (Some k) cfg nomsg nofail fs wp = Some o -> Forall (inline_present nomsg) fs ->
     o_status o = if existsb (fun x => spec_exit pm false nomsg nofail [] (f_msgs x)) fs
                     || spec_exit pm true nomsg nofail [] wp
-                    || negb (is_nil_list (o_unmatched o))
+                    || um_raise nofail (o_unmatched o)
                  then c_exitcode cfg else 0.
   Proof.
     unfold whole_run, exec_files. intros H Hin.
     destruct (multi_files pm k nomsg nofail nomsg nofail [] fs) as [sr|] eqn:Hs; [|discriminate].
     apply multi_files_spec in Hs; [|reflexivity|reflexivity|exact Hin]. destruct Hs as (Hn & Hf & Hres).
     destruct (logger_run pm true (mkL (sr_nomsg sr) (sr_nofail sr) [] false) wp) as [[st outs]|] eqn:Hr; [|discriminate].
-    pose proof (logger_run_spec pm true _ _ _ _ Hr) as (_ & He & _ & _). cbn [l_nomsg l_nofail l_seen l_exit] in *.
+    pose proof (logger_run_spec pm true _ _ _ _ Hr) as (_ & He & _ & Hf2). cbn [l_nomsg l_nofail l_seen l_exit] in *.
     rewrite (spec_exit_static pm true _ _ _ _ [] wp Hn Hf) in He. cbn [orb] in He.
+    assert (Hnf : map static (l_nofail st) = map static nofail) by congruence.
     cbv zeta in H.
     destruct (if c_info cfg && negb (is_nil_list (l_nomsg st)) then _ else _) as [u|]; [|discriminate].
-    injection H as <-. cbn [o_status o_unmatched]. rewrite He. apply status_arith. exact Hres.
+    destruct (unmatched_fail pm (l_nofail st) u) as [fl|] eqn:Hfl; [|discriminate].
+    apply unmatched_fail_spec in Hfl. rewrite (um_raise_static u _ _ Hnf) in Hfl.
+    injection H as <-. cbn [o_status o_unmatched]. rewrite He, Hfl. apply status_arith. exact Hres.
   Qed.
 End WithPathMatch.
 
@@ -1006,15 +1024,18 @@ Definition w25_nofail : list supp := [mk_plain UNMATCHED []].
 Definition w25_files : list finput := [mkF S_AC [] [] []].
 Definition w25_cfg : config := mkC 7 true false [].
 
-(* the unmatchedSuppression finding emitted for suppression s, as the suppression lists see it *)
-Definition unmatched_emsg (s : supp) : emsg :=
-  mkEmsg 0 UNMATCHED (s_file s)
-         (if is_nil (s_file s) then NO_LINE else if (s_line s =? NO_LINE)%Z then 0%Z else s_line s) [] [].
-
-Lemma witness_unmatched_ignores_nofail :
+(* before fix 7b7622c the status was 7 here: the only finding of the run is the
+   unmatchedSuppression one and it is matched by the exitcode suppression *)
+Lemma witness_unmatched_honours_nofail :
   exists o,
     whole_run pm_eq None w25_cfg w25_nomsg w25_nofail w25_files [] = Some o
     /\ o_reported o = []
     /\ forallb (fun s => existsb (hides pm_eq true (unmatched_emsg s)) w25_nofail) (o_unmatched o) = true
-    /\ o_status o = 7.
+    /\ o_unmatched o <> []
+    /\ o_status o = 0.
+Proof. eexists. vm_compute. repeat split; try reflexivity. discriminate. Qed.
+
+(* and without the exitcode suppression it still is 7 *)
+Lemma witness_unmatched_raises :
+  exists o, whole_run pm_eq None w25_cfg w25_nomsg [] w25_files [] = Some o /\ o_reported o = [] /\ o_status o = 7.
 Proof. eexists. vm_compute. repeat split; reflexivity. Qed.
